@@ -3,7 +3,7 @@ CONSTANTS
   Mode = "tree"
   MCFields = {"time_begin", "facecolor", "show_label"}
   MCValues = {"a", "b"}
-  MCSub = "dynamic_obstacle"
+  MCSub = ""
   MaxSets = 2
   WMax = 6
   TMax = 8
